@@ -3,6 +3,9 @@ package harness
 import (
 	"fmt"
 	"sync"
+	"syscall"
+	"time"
+	"unsafe"
 
 	stslog "github.com/arm-doe/sts/log"
 	"github.com/arm-doe/sts/zzverif/vfs"
@@ -51,3 +54,15 @@ func initLogger() {
 }
 
 func vfsCalls() int64 { return vfs.Calls() }
+
+// lutimes sets the modification time of a symbolic link itself
+func lutimes(path string, t time.Time) {
+	ts := []syscall.Timespec{syscall.NsecToTimespec(t.UnixNano()), syscall.NsecToTimespec(t.UnixNano())}
+	p, err := syscall.BytePtrFromString(path)
+	if err != nil {
+		return
+	}
+	const atFdcwd = -100
+	const atSymlinkNofollow = 0x100
+	_, _, _ = syscall.Syscall6(syscall.SYS_UTIMENSAT, uintptr(atFdcwd&0xffffffffffffffff), uintptr(unsafe.Pointer(p)), uintptr(unsafe.Pointer(&ts[0])), atSymlinkNofollow, 0, 0)
+}
